@@ -500,24 +500,65 @@ def run(tier, only=None, prop=PROP, labels=None):
     for cap in ((1, 2, 3) if tier == "quick" else (1, 2, 3, 4, 5)):
         for f in range(4):
             jobs.append(dict(scenario="scenario_sequence", params=dict(cap=cap, nops=nseq, first=f), budget_s=900, max_paths=400000))
+    # the wake-up clause: the message-plane benches (real send/recv coroutines over the queue, every task order); a command
+    # of an acyclic bench that stalls means a sender waiting for space / the receiver waiting for a message was not resumed
+    from vlib import msgplane as MPL
+    from vlib import msgprop as MP
+    wake = []
+    for b in MPL.benches(tier):
+        if "C12" in b["props"]:
+            jobs.append(dict(module="vlib.msgplane", scenario="scenario", loop_bound=60, budget_s=600 if tier == "quick" else 3000,
+                             params=dict(bench=b["bench"], driver=b["driver"], permute=b.get("permute", True), acyclic=True, name=b["name"])))
+            wake.append(b["name"])
     if only:
-        jobs = [j for j in jobs if only in j["scenario"]]
+        jobs = [j for j in jobs if only in j["scenario"] or only in j["params"].get("name", "")]
+    msg_native = MP.make_native("C12")
+
+    def native(work, job, v, d):
+        return msg_native(work, job, v, d) if job.get("module") == "vlib.msgplane" else _native(work, job, v, d)
+    labels = labels or ("C12:",)
     ev.cov["bounds"] = {
+        "wake-ups": f"message-plane benches {wake}: real Sender::send / Receiver::recv coroutines, capacity-1 and -2 mailboxes, every order in which the "
+                    "executor model picks a ready task (task-poll granularity)",
         "inductive": f"capacities {list(caps)} (powers of two and not); every fill level 0..cap, dequeue index, closed flag, operation in "
                      "{push, pop (borrow kept), pop+drop, close}; the sequence counter of the positions/stamps is SYMBOLIC (all values, incl. the wrap-around); "
                      "compare_exchange_weak may fail spuriously once",
         "sequences": f"every sequence of {nseq} operations over {{push, pop/drop-borrow, close, len}} from Queue::new",
     }
-    ev.cov["outside_claim"] = ["the wake-up clauses (a waiting sender/receiver is always resumed): send/recv are coroutines over async-event",
+    ev.cov["outside_claim"] = ["wake-ups under real parallelism (a notification racing with a failed push/pop on another thread): tasks interleave at "
+                               "await points only; async-event / diatomic-waker are modelled after their sources",
                                "concurrent producers / C11 interleavings (sequential semantics of the atomics here)",
                                "RecycleBox internals (messages are ids)"]
-    rc = SP.run(prop, tier, ev, "props.C12", jobs, native_replay=_native, only_labels=labels)
+    rc = SP.run(prop, tier, ev, "props.C12", jobs, native_replay=native, only_labels=labels) if jobs else C.EXIT_OK
+    if prop == PROP and (not only or only == "c11"):
+        # part Q (E3): one push racing with one pop under the C11 memory model
+        from props import C12q
+        from vlib import drvprop as DP
+        work = C.WorkDir("mirse-C12")
+        try:
+            mir, src_root, _ = DP.dump_mir(work)
+            if not mir:
+                rc = max(rc, C.EXIT_INCONCLUSIVE)
+            else:
+                ev.cov["engines"].append("axc11 (axiomatic C11 release/acquire model over MIRSE events)")
+                rq = C12q.run_part(ev, work, mir, src_root, tier)
+                rc = C.EXIT_VIOLATION if C.EXIT_VIOLATION in (rc, rq) else max(rc, rq)
+        finally:
+            work.close()
+        ev.cov["bounds"]["c11"] = ("E3: one producer pushing one message || the consumer popping, reading and releasing it, capacities 1-2 (thorough: 1-4): "
+                                   "no data race on a slot, no slot read in the wrong state, the popped message is the pushed one; thread paths are "
+                                   "enumerated over per-thread value sets (fixpoint), every C11-consistent execution of each path combination is decided")
+        ev.cov["outside_claim"][1] = ("C11 interleavings of more than one operation per thread (slot reuse, several producers): thread-isolated path "
+                                      "enumeration explodes on the retry loops (> 30000 paths for two pushes)")
     ev.write({0: "held on everything explored", 1: "violation", 2: "inconclusive"}[rc])
     return rc
 
 
 def replay(path, prop=PROP):
     ce = json.load(open(os.path.join(path, "counterexample.json")))
+    if "bench" in ce.get("params", {}):
+        from vlib import msgprop as MP
+        return MP.replay(prop, path)
     work = C.WorkDir(f"mirse-{prop}")
     try:
         ok = _native(work, dict(params=ce["params"]), dict(witness=ce["witness"], vals=ce["values"], label=ce["obligation"], detail=ce["detail"]), path)
